@@ -35,12 +35,13 @@ theorem loop_sim2 {g : Graph} (hv : Valid g) {s : Nat} (vsRef : Array NodeK) (ha
       HRel g s hs st → Rel g.n gs hs st → SameAdj vsRef gs.2.2 → st.q.length ≤ fuel →
       ∃ st', HRel g s (dijkstraHeapLoop g.edges fuel hs) st' ∧ st'.q = [] ∧
         Rel g.n (whileLoop (dijkstra_while4_cond modelOps) (dijkstra_while4_body modelOps) fuel gs)
-          (dijkstraHeapLoop g.edges fuel hs) st' := by
+          (dijkstraHeapLoop g.edges fuel hs) st' ∧
+        SameAdj vsRef (whileLoop (dijkstra_while4_cond modelOps) (dijkstra_while4_body modelOps) fuel gs).2.2 := by
   intro fuel
   induction fuel with
   | zero =>
-    intro gs hs st h r _ hl
-    exact ⟨st, h, List.length_eq_zero_iff.mp (Nat.le_zero.mp hl), r⟩
+    intro gs hs st h r hsame hl
+    exact ⟨st, h, List.length_eq_zero_iff.mp (Nat.le_zero.mp hl), r, hsame⟩
   | succ f ih =>
     intro gs hs st h r hsame hl
     obtain ⟨Q, dOut, vs⟩ := gs
@@ -53,7 +54,7 @@ theorem loop_sim2 {g : Graph} (hv : Valid g) {s : Nat} (vsRef : Array NodeK) (ha
     | none =>
       have hf' : findMin hs.heap = none := by rw [← hQ]; exact hf
       simp only [hf', Option.isNone_none, Bool.not_true, Bool.false_eq_true, if_false]
-      refine ⟨st, h, ?_, r⟩
+      refine ⟨st, h, ?_, r, hsame⟩
       have he : elems hs.heap = [] := AdaptaVerif.Lemmas.PairingHeap.findMin_none.mp hf'
       have := h.perm.length_eq
       rw [he] at this
@@ -167,10 +168,59 @@ theorem dijkstra_eq_any {g : Graph} (hv : Valid g) {s : Nat} (hs : s < g.n) (vs 
       show Vec.at dOut t = Vec.at (Array.replicate g.n (none : Dist)) t
       unfold Vec.at
       rw [Array.getElem?_eq_none (by rw [hd]; omega), Array.getElem?_eq_none (by simp; omega)]
-  obtain ⟨st', hrel', hq', r'⟩ := loop_sim2 hv vs5 hadj5 h5sz hid5 g.n _ _ _ (hrel_init hs) hrel0 (SameAdj.refl vs5)
+  obtain ⟨st', hrel', hq', r', _⟩ := loop_sim2 hv vs5 hadj5 h5sz hid5 g.n _ _ _ (hrel_init hs) hrel0 (SameAdj.refl vs5)
     (by simp [dijkstraInit])
   have hfin := vec_ext (r'.gsz.trans r'.hsz.symm) (fun t => r'.agree t (by rw [hq']; exact List.not_mem_nil))
   simpa [dijkstraHeap, dijkstraHeapRun] using hfin
+
+/-- the node array the generated `dijkstra` leaves behind still carries the adjacency lists (only `id` and `d` were written),
+    so the next call of `johnsons` finds what it needs -/
+theorem dijkstra_vs_any {g : Graph} (hv : Valid g) {s : Nat} (hs : s < g.n) (vs : Array NodeK) (hadj : AdjOf g.edges vs)
+    (hsz : vs.size = g.n) (dOut : Array Dist) (hd : dOut.size = g.n) :
+    AdjOf g.edges (AdaptaVerif.Gen.DijkstraK.dijkstra s vs dOut modelOps g.n).1 ∧
+    (AdaptaVerif.Gen.DijkstraK.dijkstra s vs dOut modelOps g.n).1.size = g.n := by
+  unfold AdaptaVerif.Gen.DijkstraK.dijkstra
+  simp only []
+  obtain ⟨a1, a2, a3⟩ := init_loop_spec vs
+  generalize hA : forRange (dijkstra_body1 modelOps) (vs.size - 0) 0 vs = vsA at a1 a2 a3
+  have hAsz : vsA.size = g.n := a1.trans hsz
+  have hsA : s < vsA.size := by rw [hAsz]; exact hs
+  generalize h5 : aset vsA s { (aget vsA s) with d := (some (0 : Rat) : Dist) } = vs5
+  have h5sz : vs5.size = g.n := by rw [← h5, aset_size]; exact hAsz
+  have h5get : ∀ k, (aget vs5 k).neighbours = (aget vsA k).neighbours ∧ (aget vs5 k).nweights = (aget vsA k).nweights ∧
+      (aget vs5 k).id = (aget vsA k).id := by
+    intro k
+    rw [← h5]
+    by_cases hk : s = k
+    · subst hk; rw [aget_aset_eq _ _ _ hsA]; exact ⟨rfl, rfl, rfl⟩
+    · rw [aget_aset_ne _ _ _ _ hk]; exact ⟨rfl, rfl, rfl⟩
+  have hd5 : dOf vs5 = (Array.replicate g.n (none : Dist)).setIfInBounds s (some 0) := by
+    rw [← h5, dOf_aset, dOf_eq_replicate vsA (fun k hk => (a3 k (by rw [← a1]; exact hk)).2), hAsz]
+  rw [insert_loop]
+  simp only []
+  have hadj5 : AdjOf g.edges vs5 := fun u =>
+    ⟨by rw [(h5get u).1, (a2 u).1]; exact (hadj u).1, by rw [(h5get u).2.1, (a2 u).2]; exact (hadj u).2⟩
+  have hid5 : ∀ k, k < g.n → (aget vs5 k).id = k := fun k hk => by
+    rw [(h5get k).2.2]; exact (a3 k (by rw [hsz]; exact hk)).1
+  have hrel0 : Rel g.n ((List.range vs.size).foldl (fun h i => insert ltDist h ((dOf vs5).at i) i) modelOps.empty, dOut, vs5)
+      (dijkstraHeapInit g.n s) (dijkstraInit g.n s) := by
+    refine ⟨?_, ?_, hd, ?_, ?_⟩
+    · show dOf vs5 = _
+      rw [hd5]; rfl
+    · show _ = heapInit _ g.n
+      unfold heapInit
+      simp only [hd5, hsz]
+      rfl
+    · show (Array.replicate g.n (none : Dist)).size = g.n
+      simp
+    · intro t ht
+      have htn : ¬ t < g.n := fun h => ht (by simp [dijkstraInit, h])
+      show Vec.at dOut t = Vec.at (Array.replicate g.n (none : Dist)) t
+      unfold Vec.at
+      rw [Array.getElem?_eq_none (by rw [hd]; omega), Array.getElem?_eq_none (by simp; omega)]
+  obtain ⟨st', _, _, _, hsame⟩ := loop_sim2 hv vs5 hadj5 h5sz hid5 g.n _ _ _ (hrel_init hs) hrel0 (SameAdj.refl vs5)
+    (by simp [dijkstraInit])
+  exact ⟨fun u => ⟨by rw [(hsame.2 u).1]; exact (hadj5 u).1, by rw [(hsame.2 u).2.1]; exact (hadj5 u).2⟩, hsame.1.trans h5sz⟩
 
 theorem loop_pre2 {g : Graph} (hv : Valid g) {s : Nat} (vsRef : Array NodeK) (hadj : AdjOf g.edges vsRef)
     (hsz : vsRef.size = g.n) (hid : ∀ k, k < g.n → (aget vsRef k).id = k) :
